@@ -1,4 +1,4 @@
-import SqlgrepModel.Lemmas.ParseLoc
+import SqlgrepModel.Lemmas.ParseWithin
 /-
 Location lemmas for the statement parser (`Model/ParseStmt.lean`), on top of `locIH_all`: every function keeps the
 state a suffix of the token vector and reports errors at token locations.
